@@ -7,6 +7,7 @@ import Driver.Text
 import Aldrin.Model.Schema.Parse
 import Aldrin.Model.Schema.Fmt
 import Aldrin.Lemmas.Schema.ValidSound
+import Aldrin.Model.Schema.Span
 
 namespace Aldrin.Driver
 open Aldrin Aldrin.Schema
@@ -122,6 +123,16 @@ def schemaCmd (cmd : String) (args : List String) : Option String :=
         if okValid && okFuel && okBack then "ok 1"
         else "ok 0 valid=" ++ toString okValid ++ " fuel=" ++ toString okFuel ++ " back=" ++ toString okBack
       | none => "err")
+  | "slc", line :: col :: e :: docs => do
+    -- the doc-link position arithmetic: docs as <span_inner start>:<hex of value_inner>
+    let docs ← docs.mapM (fun (t : String) => match t.splitOn ":" with
+      | [st, h] => do pure ({ start := (← st.toNat?), value := (← ofHex h) } : Span.DocLine)
+      | _ => none)
+    let r := Span.linecolToIndex docs (← line.toNat?) (← col.toNat?) (e == "1")
+    pure (match r with
+      | .underflow => "underflow"
+      | .none => "none"
+      | .some i => s!"some {i}")
   | _, _ => none
 
 end Aldrin.Driver
